@@ -44,6 +44,7 @@ class VLoop(asyncio.BaseEventLoop):
         self.choices = []             # recorded (n_options, chosen, labels)
         self._stop_when = None
         self.timer_fired = 0
+        self.setup = False            # True: deterministic, unrecorded
 
     # -- BaseEventLoop plumbing -------------------------------------------
     def time(self):
@@ -87,12 +88,13 @@ class VLoop(asyncio.BaseEventLoop):
             options.append(('timer', 'timer@%g' % when, when))
         if not options:
             raise Quiescent()
-        if self.chooser is None:
+        if self.chooser is None or self.setup:
             idx = 0
         else:
             idx = self.chooser(self, options)
         kind, label, obj = options[idx]
-        self.choices.append((len(options), idx, label))
+        if not self.setup:
+            self.choices.append((len(options), idx, label))
         if kind == 'point':
             self.parked = [(lb, f) for lb, f in self.parked if f is not obj]
             obj.set_result(None)
